@@ -11,6 +11,7 @@ import VyxalModel.Model.Input
 import VyxalModel.Model.Num
 import VyxalModel.Model.NumTheory
 import VyxalModel.Model.Lists
+import VyxalModel.Model.Vectorise
 import VyxalModel.Gen.Codepage
 /-! Line protocol: `cmd<TAB>argument`; one answer line per request. -/
 open Vy
@@ -155,6 +156,38 @@ def lsCmd (arg : String) : String :=
      | _ => "BADFN")
   | _ => "BADARG"
 
+/-- nested integer lists in the syntax `[1,[2,3],4]` / bare integers -/
+partial def parseV (cs : List Char) : Option (Vec.V × List Char) :=
+  match cs with
+  | '[' :: rest =>
+    let rec items (cs : List Char) (acc : List Vec.V) : Option (List Vec.V × List Char) :=
+      match cs with
+      | ']' :: r => some (acc.reverse, r)
+      | ',' :: r => items r acc
+      | _ => match parseV cs with
+        | some (v, r) => items r (v :: acc)
+        | none => none
+    (items rest []).map (fun (xs, r) => (Vec.V.l xs, r))
+  | _ =>
+    let numS := cs.takeWhile (fun c => c.isDigit || c == '-')
+    if numS.isEmpty then none else (String.ofList numS).toInt?.map (fun i => (Vec.V.s i, cs.drop numS.length))
+
+partial def showV : Vec.V → String
+  | .s a => toString a
+  | .l xs => "[" ++ ",".intercalate (xs.map showV) ++ "]"
+
+def vecCmd (arg : String) : String :=
+  match arg.splitOn "|" with
+  | [a, b] =>
+    (match parseV a.toList, parseV b.toList with
+     | some (x, _), some (y, _) => showV (Vec.d2 64 (fun p q => p * 1000 + q) x y)
+     | _, _ => "BADARG")
+  | [a] =>
+    (match parseV a.toList with
+     | some (x, _) => showV (Vec.d1 64 (fun p => p * 7 + 1) x)
+     | none => "BADARG")
+  | _ => "BADARG"
+
 def answer (cmd arg : String) : String :=
   match cmd with
   | "tok" => showToks (tokenise (parseCps arg))
@@ -205,6 +238,7 @@ def answer (cmd arg : String) : String :=
   | "frombase27" => (match fromAlphabet Gen.base27 (parseCps arg) with
       | some n => toString n
       | none => "ERR")
+  | "vec" => vecCmd arg
   | "nt" => ntCmd arg
   | "ls" => lsCmd arg
   | "arith" => arithCmd arg
